@@ -204,6 +204,7 @@ pub fn run(tier: Tier) -> Report {
     let mut evals = 0u64;
     let mut distinct: BTreeSet<u64> = BTreeSet::new();
     let mut asked = 0u64;
+    let mut transient = 0u64;
     let mut samples = Samples::new(10);
     for (gi, (name, text)) in gs.iter().enumerate() {
         for (si, (_, sn)) in SHELLS.iter().enumerate() {
@@ -229,7 +230,15 @@ pub fn run(tier: Tier) -> Report {
                 continue;
             }
             for cfg in &cfgs[1..] {
-                let out = run_config(text, sn, cfg, &scratch, &shim);
+                let mut out = run_config(text, sn, cfg, &scratch, &shim);
+                // a run that did not end with an exit code (killed, horizon) is replayed before it
+                // is believed: with the seed owned, a real difference shows again
+                let mut tries = 0;
+                while out.status.is_none() && reference.status.is_some() && tries < 2 {
+                    tries += 1;
+                    transient += 1;
+                    out = run_config(text, sn, cfg, &scratch, &shim);
+                }
                 evals += 1;
                 distinct.insert(fnv(&format!("{name}{sn}{}", cfg.name)));
                 let mut diffs = vec![];
@@ -248,7 +257,7 @@ pub fn run(tier: Tier) -> Report {
                 if !diffs.is_empty() {
                     rep.violation(
                         &format!("output-depends-on-{}", if cfg.prefill { "destination-history" } else if cfg.seed.is_some() && !cfg.no_aslr && !cfg.stdin { "hash-seed" } else { "environment" }),
-                        format!("{name} --{sn}: {} differ(s) between [{}] and [{}]", diffs.join(", "), cfgs[0].name, cfg.name),
+                        format!("{name} --{sn}: {} differ(s) between [{}] (exit {:?}) and [{}] (exit {:?})", diffs.join(", "), cfgs[0].name, reference.status, cfg.name, out.status),
                         J::obj(vec![("grammar", J::s(text)), ("shell", J::s(*sn)), ("reference_config", J::s(&cfgs[0].name)), ("config", J::s(&cfg.name)), ("differs", J::s(diffs.join(", "))), ("reproduce", J::s(format!("CG_SEED=<n> LD_PRELOAD={} complgen --{sn} OUT --dfa D --regex R FILE  (twice, different n)", shim.as_ref().unwrap().display())))]),
                     );
                 }
@@ -293,6 +302,7 @@ pub fn run(tier: Tier) -> Report {
             }
         }
     }
+    rep.cov("runs_replayed_because_they_ended_without_exit_code", J::i(transient as i64));
     rep.cov("environment_variables_the_binary_reads", J::arr_s(env_names.iter().cloned()));
     rep.cov("single_variable_runs", J::i(env_runs as i64));
     // ---- in-process histories: what the process compiled before must not matter
